@@ -5,17 +5,21 @@ import AscentVerif.Proofs.C15Expand
 
 Statements over the model `Check.check` (Model/Check.lean) of the static checks of the macro front end;
 the declarative predicates are in Spec/CheckSpec.lean.  `Rejected s` = the macro answers with an error
-(or panics) and emits no code; `Reaches s` = this macro invocation compiles the program itself (it parses,
+and emits no code (`check_never_panics`: never with a panic); `Reaches s` = this macro invocation compiles the program itself (it parses,
 has no `include_source!`, is not an `ascent_source!`).
 
 * for every violation class K: `IllFormed_K → Rejected`, for a violation at ANY rule / position / nesting;
 * `WellFormedCore → check = ok` and the converse (`accepted_wellFormed`);
 * macro expansion is total (structural recursion on the depth budget); every macro of a set closed under
-  "invokes a member again" is rejected from every invocation at every position, whatever the budget; an
-  invocation whose call tree fits the budget succeeds (up to the `flatten_punctuated` panic, FM7);
-* the `panic!` sites guarding against leftovers of desugaring are unreachable; the reachable panics are the
-  four recorded sites (findings FM5, FM6, FM7);
-* findings that make the full-strength statements false are witnessed by closed terms (`decide`).
+  "invokes a member again" is rejected from every invocation at every position, whatever the budget; so is
+  every macro from which an empty disjunction is reached; an invocation whose call tree fits the budget succeeds;
+* the pipeline NEVER panics (`check_never_panics`): the `panic!` sites guarding against leftovers of desugaring
+  are unreachable, and the four formerly reachable sites are gone (FM7: fix 71f89c5; FM5: fix 5862f99, now the
+  error `aggBoundArg` of the HIR pass; FM6: fix dfbe0be, now the errors `sigName` / `sigGenerics` in front of the
+  stratification test); an empty disjunction is a parse error of its rule, resp. an error of the expansion of
+  the macro whose body contains it (FM4: fix 361e42e);
+* the findings that still make a full-strength statement false (FM1 residue, FM2, FM10) are witnessed by closed
+  terms (`decide`), as is the NEW behaviour of the repaired ones.
 -/
 namespace AscentVerif.Check
 open AscentVerif AscentVerif.Engine
@@ -37,6 +41,24 @@ theorem illFormed_rebind_rejected (s : Summary) (rules : List CoreRule) (hr : Re
 theorem illFormed_stratification_rejected (s : Summary) (rules : List CoreRule) (hr : Reaches s)
     (hd : desugar s.macros s.rules = .ok rules) (h : IllFormedStrat s rules) : Rejected s :=
   stratification_rejected s rules hr hd h
+
+/-- an aggregation over a variable that is not an argument of the aggregated relation (`agg m = min(z) in a(y)`),
+in any rule and at any position of its body (fix 5862f99; formerly the panic of finding FM5) -/
+theorem illFormed_aggBound_rejected (s : Summary) (rules : List CoreRule) (hr : Reaches s)
+    (hd : desugar s.macros s.rules = .ok rules) (h : IllFormedAggBound rules) : Rejected s :=
+  aggBound_rejected s rules hr hd h
+
+/-- `struct Foo; impl Bar;`, `struct Foo<T>; impl<T> Foo<U>;` (fix dfbe0be; formerly the panics of finding FM6) -/
+theorem illFormed_signature_rejected (s : Summary) (hr : Reaches s) (h : IllFormedSig s) : Rejected s :=
+  signature_rejected s hr h
+
+/-- a rule that contains an empty disjunction `()` — at any position of its body, at any depth of nested
+disjunctions — is rejected by every one of the five macros (fix 361e42e; formerly the rule and every violation
+in it disappeared: finding FM4).  The hypothesis excludes the programs that an `include_source!` hands over,
+unparsed, to another macro invocation. -/
+theorem illFormed_emptyDisj_rejected (s : Summary) (hn : ∀ n, Top.incl n ∉ s.items) (h : IllFormedEmptyDisj s) :
+    Rejected s :=
+  illFormedEmptyDisj_rejected s hn h
 
 theorem illFormed_include_rejected (s : Summary) (h : IllFormedInclude s) : Rejected s := include_rejected s h
 
@@ -74,6 +96,13 @@ theorem self_referential_head_macro_rejected (s : Summary) (D : Name → Prop) (
     (h : ∃ r ∈ s.rules, ∃ hd ∈ r.heads, ∃ m, D m ∧ HInvokes hd m) : Rejected s :=
   self_referential_head_rejected s D hr hD h
 
+/-- the body of a macro DEFINITION is only parsed when the macro is invoked: every rule that invokes (at any
+position, at any depth of disjunctions) a macro from which an empty disjunction is reached — in its own body or
+through further invocations — is rejected, whatever the budget -/
+theorem illFormed_macroEmptyDisj_rejected (s : Summary) (D : Name → Prop) (hr : Reaches s)
+    (hD : ReachesEmptyDisj s.macros D) (h : ∃ r ∈ s.rules, ∃ it ∈ r.body, ∃ m, D m ∧ Invokes it m) : Rejected s :=
+  reachesEmptyDisj_rejected s D hr hD h
+
 /-- direct recursion: the body of `m` invokes `m` -/
 theorem direct_recursive_macro_rejected (s : Summary) (m : Name) (hr : Reaches s)
     (hself : ∀ d, lookupMacro s.macros m = some d → ∃ it ∈ d.body, Invokes it m)
@@ -103,8 +132,9 @@ theorem mutual_recursive_macro_rejected (s : Summary) (a b : Name) (hr : Reaches
   · obtain ⟨r, hr', it, hit, hinv⟩ := h
     exact ⟨r, hr', it, hit, a, Or.inl rfl, hinv⟩
 
-/-- expansion inside the budget: a finite call tree of depth ≤ 100 expands (full strength since fix 71f89c5;
-before it the `flatten_punctuated` panic of finding FM7 was a possible outcome) -/
+/-- expansion inside the budget: a finite call tree of depth ≤ 100 in which every disjunction has an alternative
+expands (full strength since fix 71f89c5; before it the `flatten_punctuated` panic of finding FM7 was a possible
+outcome; since fix 361e42e `Fits` asks for non-empty disjunctions) -/
 theorem expandItem_succeeds_within_budget (ms : List MacroDef) (n : Nat) (it : Item) (h : Fits ms n it)
     (hn : n ≤ depthBudget) (σ : Env) (π : List Nat) :
     ∃ its, expandItem ms depthBudget σ π it = .ok its :=
@@ -121,7 +151,8 @@ theorem accepted_is_wellFormed (s : Summary) (hr : Reaches s) (h : check s = .ok
     ∃ rules, desugar s.macros s.rules = .ok rules ∧
       (∀ r ∈ rules, ∀ o ∈ r.occurrences, ∃ d, findDecl s.decls o.1 = some d ∧ d.arity = o.2) ∧
       ¬ IllFormedRebind rules ∧ ¬ IllFormedStrat s rules ∧ ¬ IllFormedDsLattice s ∧ ¬ IllFormedTwoDs s ∧
-      ¬ IllFormedUnknownAttr s ∧ ¬ IllFormedParOnlyAttr s :=
+      ¬ IllFormedUnknownAttr s ∧ ¬ IllFormedParOnlyAttr s ∧
+      ¬ IllFormedAggBound rules ∧ ¬ IllFormedSig s ∧ ¬ IllFormedEmptyDisj s :=
   accepted_wellFormed s hr h
 
 /-- the stratification test is the declarative condition, and dependency paths give classes -/
@@ -135,20 +166,11 @@ theorem dependency_cycle_is_one_class (p : Skel) (i j : Nat) (h1 : Path p i j) (
 
 /-! ## panics -/
 
-/-- the code-generation panics occur exactly in their classes (findings FM5, FM6) -/
-theorem aggBound_panic_only_in_class (s : Summary) (h : check s = .error .panicAggBound) :
-    ∃ rules, desugar s.macros s.rules = .ok rules ∧ ∃ r ∈ rules, ∃ ev ∈ r.body, aggBoundOk ev = false :=
-  check_panicAggBound s h
-
-theorem sig_panic_only_in_class (s : Summary) (h : check s = .error .panicSigName ∨ check s = .error .panicSigGenerics) :
-    ∃ sg i, s.sig = some sg ∧ sg.implName = some i ∧ (i ≠ sg.structName ∨ sg.genericsMatch = false) :=
-  check_panicSig s h
+/-- the model of the macro pipeline NEVER panics: whatever the program, the answer is `ok` or a proper error -/
+theorem check_never_panics (s : Summary) (e : Err) (h : check s = .error e) : e.isPanic = false :=
+  check_no_panic s e h
 
 theorem leftover_panics_unreachable (s : Summary) : check s ≠ .error .panicLeftover := check_no_leftover s
-
-theorem panic_only_in_known_classes (s : Summary) (e : Err) (h : check s = .error e) (hp : e.isPanic = true) :
-    e = .panicAggBound ∨ e = .panicSigName ∨ e = .panicSigGenerics :=
-  check_panic_sites s e h hp
 
 /-! ## non-vacuity and findings (closed witnesses) -/
 
@@ -245,18 +267,40 @@ def wAggBound : Summary := prog [rel "a" 1, rel "b" 1, rel "c" 1,
   rule [.clause "b" 1] [.clause "c" [.var y] [], .agg "a" [.var y] ⟨[{ name := "m" }], []⟩ [y]]]
 theorem aggBound_shadow_accepted : check wAggBound = .ok () := by decide
 
-/-- FM4. `zz(x) <-- a(x), ();` — the empty disjunction erases the rule and the undeclared relation with it -/
+/-- FM4 (fixed by 361e42e). `zz(x) <-- a(x), ();` — the empty disjunction is a parse error of the rule (formerly
+the rule disappeared, and the undeclared relation `zz` with it); at any depth: `b(x) <-- a(x), (a(x) | (()));` -/
 def wEmptyDisj : Summary := prog [rel "a" 1, rule [.clause "zz" 1] [.clause "a" [.var x] [], .disj []]]
-theorem emptyDisj_erases_rule : check wEmptyDisj = .ok () ∧ desugar wEmptyDisj.macros wEmptyDisj.rules = .ok [] := by
+theorem emptyDisj_rejected : check wEmptyDisj = .error .emptyDisj := by decide
+def wEmptyDisjDeep : Summary := prog [rel "a" 1, rel "b" 1,
+  rule [.clause "b" 1] [.clause "a" [.var x] [], .disj [[.clause "a" [.var x] []], [.disj [[.disj []]]]]]]
+theorem emptyDisj_deep_rejected : check wEmptyDisjDeep = .error .emptyDisj := by decide
+
+/-- `macro m($p: ident) { a($p), () }`: rejected where it is invoked (`b(x) <-- m!(x);`), accepted when nothing
+invokes it (the body of a macro definition is a token stream) -/
+def wEmptyDisjMacro (body : List Item) : Summary := prog [rel "a" 1, rel "b" 1,
+  macroM [.clause "a" [.var px] [], .disj []], rule [.clause "b" 1] body]
+theorem emptyDisj_in_macro_rejected :
+    check (wEmptyDisjMacro [.mac "m" [.var x]]) = .error .emptyDisj ∧
+    check (wEmptyDisjMacro [.clause "a" [.var x] []]) = .ok () := by
   constructor <;> decide
 
-/-- FM5. `b(x) <-- a(x), agg m = min(z) in a(y);` panics in code generation -/
+/-- FM5 (fixed by 5862f99). `b(x) <-- a(x), agg m = min(z) in a(y);` is an error of the rule compiler (formerly
+a panic in code generation); the test comes first in the `Agg` arm: `agg x = min(z) in zz(y)` — which also
+rebinds `x` and aggregates over an undeclared relation — gets the same answer -/
 def wAggBoundMissing : Summary := prog [rel "a" 1, rel "b" 1,
   rule [.clause "b" 1] [.clause "a" [.var x] [], .agg "a" [.var y] ⟨[{ name := "m" }], []⟩ [{ name := "z" }]]]
-theorem aggBoundMissing_panics : check wAggBoundMissing = .error .panicAggBound := by decide
+theorem aggBoundMissing_rejected : check wAggBoundMissing = .error .aggBoundArg := by decide
+def wAggBoundMissingFirst : Summary := prog [rel "a" 1, rel "b" 1,
+  rule [.clause "b" 1] [.clause "a" [.var x] [], .agg "zz" [.var y] ⟨[x], []⟩ [{ name := "z" }]]]
+theorem aggBoundMissing_first_rejected : check wAggBoundMissingFirst = .error .aggBoundArg := by decide
 
-/-- FM6. `struct Foo; impl Bar;` -/
-theorem sigMismatch_panics : check { wGood with sig := some ⟨"Foo", some "Bar", true⟩ } = .error .panicSigName := by decide
+/-- FM6 (fixed by dfbe0be). `struct Foo; impl Bar;` and `struct Foo<T>; impl<T> Foo<U>;` are errors (formerly
+`assert_eq!` panics), reported BEFORE the stratification error (`struct Foo; impl Bar; .. b(x) <-- a(x), !b(x);`) -/
+theorem sigMismatch_rejected :
+    check { wGood with sig := some ⟨"Foo", some "Bar", true⟩ } = .error .sigName ∧
+    check { wGood with sig := some ⟨"Foo", some "Foo", false⟩ } = .error .sigGenerics ∧
+    check { wStrat with sig := some ⟨"Foo", some "Bar", true⟩ } = .error .sigName := by
+  refine ⟨?_, ?_, ?_⟩ <;> decide
 
 /-- FM7 (fixed by 71f89c5). `macro e() { }  e!(), b(x) <-- a(x);` is accepted: the empty expansion contributes nothing -/
 def wEmptyHeadMacro : Summary := prog [rel "a" 1, rel "b" 1,
@@ -301,10 +345,17 @@ end AscentVerif.Check
 #print axioms AscentVerif.Check.stratError_is_illFormedStrat
 #print axioms AscentVerif.Check.dependency_cycle_is_one_class
 #print axioms AscentVerif.Check.leftover_panics_unreachable
-#print axioms AscentVerif.Check.panic_only_in_known_classes
-#print axioms AscentVerif.Check.aggBound_panic_only_in_class
-#print axioms AscentVerif.Check.sig_panic_only_in_class
+#print axioms AscentVerif.Check.check_never_panics
+#print axioms AscentVerif.Check.illFormed_aggBound_rejected
+#print axioms AscentVerif.Check.illFormed_signature_rejected
+#print axioms AscentVerif.Check.illFormed_emptyDisj_rejected
+#print axioms AscentVerif.Check.illFormed_macroEmptyDisj_rejected
 #print axioms AscentVerif.Check.hidden_rebind_accepted
 #print axioms AscentVerif.Check.aggBound_shadow_accepted
-#print axioms AscentVerif.Check.emptyDisj_erases_rule
+#print axioms AscentVerif.Check.emptyDisj_rejected
+#print axioms AscentVerif.Check.emptyDisj_deep_rejected
+#print axioms AscentVerif.Check.emptyDisj_in_macro_rejected
+#print axioms AscentVerif.Check.aggBoundMissing_rejected
+#print axioms AscentVerif.Check.aggBoundMissing_first_rejected
+#print axioms AscentVerif.Check.sigMismatch_rejected
 #print axioms AscentVerif.Check.deepNesting_rejected
